@@ -629,3 +629,112 @@ pub fn first_param_may_not_self(typ: &LuaType) -> bool {
     }
     false
 }
+
+#[cfg(feature = "verif-hooks")]
+impl LuaTypeIndex {
+    pub(crate) fn verif_sizes(&self) -> Vec<(&'static str, usize)> {
+        vec![
+            ("file_namespace", self.file_namespace.len()),
+            ("file_using_namespace", self.file_using_namespace.len()),
+            ("file_types", self.file_types.len()),
+            (
+                "file_types.ids",
+                self.file_types.values().map(|v| v.len()).sum(),
+            ),
+            ("full_name_type_map", self.full_name_type_map.len()),
+            (
+                "full_name_type_map.locations",
+                self.full_name_type_map
+                    .values()
+                    .map(|d| d.get_locations().len())
+                    .sum(),
+            ),
+            ("generic_params", self.generic_params.len()),
+            ("supers", self.supers.len()),
+            (
+                "supers.items",
+                self.supers.values().map(|v| v.len()).sum(),
+            ),
+            ("types", self.types.len()),
+            ("in_filed_type_owner", self.in_filed_type_owner.len()),
+            (
+                "in_filed_type_owner.owners",
+                self.in_filed_type_owner.values().map(|v| v.len()).sum(),
+            ),
+            ("global_name_type_map", self.global_name_type_map.len()),
+            ("internal_name_type_map", self.internal_name_type_map.len()),
+            (
+                "internal_name_type_map.names",
+                self.internal_name_type_map.values().map(|v| v.len()).sum(),
+            ),
+            ("local_name_type_map", self.local_name_type_map.len()),
+            (
+                "local_name_type_map.names",
+                self.local_name_type_map.values().map(|v| v.len()).sum(),
+            ),
+        ]
+    }
+
+    pub(crate) fn verif_file_refs(&self, file_id: FileId) -> Vec<(&'static str, usize)> {
+        let is_file_type = |id: &LuaTypeDeclId| matches!(id.get_id(), LuaTypeIdentifier::File(f, _) if *f == file_id);
+        vec![
+            (
+                "file_namespace",
+                self.file_namespace.contains_key(&file_id) as usize,
+            ),
+            (
+                "file_using_namespace",
+                self.file_using_namespace.contains_key(&file_id) as usize,
+            ),
+            ("file_types", self.file_types.contains_key(&file_id) as usize),
+            (
+                "full_name_type_map.file_scoped",
+                self.full_name_type_map
+                    .keys()
+                    .filter(|id| is_file_type(id))
+                    .count(),
+            ),
+            (
+                "full_name_type_map.locations",
+                self.full_name_type_map
+                    .values()
+                    .map(|d| {
+                        d.get_locations()
+                            .iter()
+                            .filter(|l| l.file_id == file_id)
+                            .count()
+                    })
+                    .sum(),
+            ),
+            (
+                "generic_params.file_scoped",
+                self.generic_params
+                    .keys()
+                    .filter(|id| is_file_type(id))
+                    .count(),
+            ),
+            (
+                "supers.items",
+                self.supers
+                    .values()
+                    .map(|v| v.iter().filter(|s| s.file_id == file_id).count())
+                    .sum(),
+            ),
+            (
+                "types",
+                self.types
+                    .keys()
+                    .filter(|o| o.get_file_id() == file_id)
+                    .count(),
+            ),
+            (
+                "in_filed_type_owner",
+                self.in_filed_type_owner.contains_key(&file_id) as usize,
+            ),
+            (
+                "local_name_type_map",
+                self.local_name_type_map.contains_key(&file_id) as usize,
+            ),
+        ]
+    }
+}
